@@ -6,6 +6,7 @@ import (
 	"encoding/json"
 	"errors"
 	"fmt"
+	"io"
 	"os"
 	"sort"
 	"strings"
@@ -266,6 +267,50 @@ func c11EvalRead(c *Ctx, cs Case) {
 	}
 	if m != obs {
 		c.Fail(Failure{Kind: "tie", What: "GetVar: result differs from the Lean program model", Case: cs, Model: clip(m), Go: clip(obs)})
+	}
+	c11ParseTie(c, cs, stored)
+}
+
+// c11ParseTie runs ParseEfivars (the package-level function and its FSWrapper twin) on a reader over the stored bytes
+// with the true size, a smaller and a larger declared size, and compares with the code TRANSLATED from the source
+// (Gen.lean, theorems C11g_parse_*): attributes, value, and how much of the reader is left.
+func c11ParseTie(c *Ctx, cs Case, stored []byte) {
+	if c.GenDrv == nil {
+		return
+	}
+	sizes := []int{len(stored), len(stored) - 1, len(stored) - 3, len(stored) + 1, 4, 5, 3}
+	for _, size := range sizes {
+		if size < 0 {
+			continue
+		}
+		one := func(parse func(io.Reader, int) (attributes.Attributes, *bytes.Buffer, error)) string {
+			r := bytes.NewReader(stored)
+			res := ""
+			pan, _ := safely(func() {
+				a, buf, err := parse(r, size)
+				if err != nil {
+					res = "err"
+					return
+				}
+				res = fmt.Sprintf("ok attrs=%d value=%s rest=%d", uint32(a), hx(buf.Bytes()), r.Len())
+			})
+			if pan {
+				return "panic"
+			}
+			return res
+		}
+		a := one(attributes.ParseEfivars)
+		b := one(fswrapper.NewMemoryWrapper().ParseEfivars)
+		goObs := a
+		if a != b {
+			goObs = "twins-differ " + a + " / " + b
+		}
+		g := c.GenDrv.Ask("gen.efivars.parse", hx(stored), fmt.Sprint(size))
+		c.genTies++
+		c.notes["translated_code_ties"] = c.genTies
+		if g != goObs {
+			c.Fail(Failure{Kind: "tie", What: fmt.Sprintf("ParseEfivars with declared size %d: the code translated from the Go source (Gen.lean) and the implementation disagree", size), Case: cs, Model: "translated: " + clip(g), Go: clip(goObs)})
+		}
 	}
 }
 
